@@ -452,6 +452,22 @@ func vrTextInbound() {
 		}
 	}
 	fmt.Printf("REPLAY-CASES fn=%s n=%d\n", fnS, k)
+	// the text of a string-like leaf is the value, blanks and line ends at its ends included; in a union whose string
+	// member follows a number member, a padded number stays the text it is
+	kc := 0
+	union := &sdcpb.SchemaLeafType{Type: "union", TypeName: "union", UnionTypes: []*sdcpb.SchemaLeafType{{Type: "uint8", TypeName: "uint8"}, {Type: "string", TypeName: "string"}}}
+	for _, typ := range []*sdcpb.SchemaLeafType{{Type: "string", TypeName: "string"}, {Type: "leafref", TypeName: "leafref"}, {Type: "binary", TypeName: "binary"}, {Type: "instance-identifier", TypeName: "instance-identifier"}, union} {
+		for _, text := range []string{"Authorized access only\n", " x", "x ", " ", "\t7", " 7", "plain"} {
+			kc++
+			tv, err := Convert(text, typ)
+			if err != nil || tv == nil || tv.GetStringVal() != text {
+				for _, f := range []string{"utils.Convert", fnS} {
+					fmt.Printf("REPLAY-FAIL fn=%s clause=the_text_of_a_string_like_leaf_is_handed_on_as_it_came input=%s leaf, text %q why=converted to %v, err %v\n", f, typ.Type, text, tv, err)
+				}
+			}
+		}
+	}
+	fmt.Printf("REPLAY-CASES fn=%s n=%d\n", "utils.Convert", kc)
 	// a leafref without a resolved target type: an error, not a crash
 	fnJ := "utils.ConvertJsonValueToTv"
 	func() {
